@@ -121,10 +121,10 @@ def run_family(pid, tier, kind, entries_rule, v=None, memory_only=False):
     covered = sorted("%s_%s" % (names[i], isa) for isa, a in ent.items() for i, c in enumerate(a) if c > 0)
     cov = {"evaluations": summ["calls"], "distinct_nontrivial": summ["calls"] - sum(1 for _ in recs) * 3 * len(ent),
            "rule": entries_rule, "vectors": len(recs), "gf_vect_mul_calls": summ.get("mul_calls", 0), "entry_points_covered": covered, "n_entry_points": len(covered),
-           "faults": summ["faults"], "tlc_generator": {"module": "spec/gen/GenEC.tla", "wall_s": round(r["wall"], 1)},
+           "faults": summ["faults"], "below_documented_minimum_length": ([{"calls": o["calls"], "accepted_and_checked": o["accepted"]} for o in out if o["e"] == "below_min"] or [{}])[0], "tlc_generator": {"module": "spec/gen/GenEC.tla", "wall_s": round(r["wall"], 1)},
            "samples": [{k2: (rec[k2] if k2 not in ("src", "coef") else str(rec[k2])[:80] + "...") for k2 in rec} for rec in recs[:2]]}
     cleanup(wd)
     return v.finish("exploration", cov,
                     ["TLC evaluates EC.tla/GF256.tla correctly (the field definition is cross-checked by C12)",
-                     "kernels are called within their documented minimum length (sse/avx 16, avx2 32, avx512 64, gfni any)",
+                     "from their documented minimum length on (sse/avx 16, avx2 32, avx512 64, gfni any) the raw kernels must produce the result; below it they may refuse (non-zero return, destination untouched), but whatever they accept is compared too",
                      "the host executes every ISA variant natively (AVX-512+GFNI present)"])
